@@ -1356,12 +1356,31 @@ theorem Alloc.step_core {m : Model} (lg : Logs) (rule : TaskRule) (time : Nat) (
     chkWorking_HoldWorking_partial hacc.inv (hacc.hold h1 hw1),
     hacc.chkWorking_ResInv h1 hw1 hr1⟩
 
+/-- steps 1'–3 with the guard of `check_state(WORKING)` (`g = wk || autoFlag`): when the guard is
+off the step is an absence step, nothing was allocated and nothing starts -/
+theorem Alloc.step_core_guard {m : Model} (lg : Logs) (rule : TaskRule) (time : Nat) (wk g : Bool)
+    {l : Live} (hg : wk = true → g = true) (h : AllocInv m l) (hw : HoldWorking l) :
+    let l1 := absenceSet m time wk l
+    let l2 := if wk then allocate m lg rule l1 else l1
+    let l3 := if g then chkWorking m l2 else l2
+    AllocInv m l3 ∧ HoldWorking l3 ∧ ResInv m time wk l3 := by
+  cases g
+  · cases wk
+    · exact ⟨absenceSet_AllocInv h, absenceSet_HoldWorking hw, absenceSet_ResInv m time false l⟩
+    · exact absurd (hg rfl) (by decide)
+  · exact Alloc.step_core lg rule time wk h hw
+
 theorem Alloc.stepBody_live (m : Model) (p : Params) (s : St) :
     (stepBody m p s).live =
-      perform m (!(p.absence.contains s.time)) p.autoFlag (compCheck m (chkWorking m
-        (if !(p.absence.contains s.time) then
-          allocate m s.logs p.rule (absenceSet m s.time (!(p.absence.contains s.time)) s.live)
-         else absenceSet m s.time (!(p.absence.contains s.time)) s.live))) := rfl
+      perform m (!(p.absence.contains s.time)) p.autoFlag (compCheck m
+        (if (!(p.absence.contains s.time) || p.autoFlag) then chkWorking m
+          (if !(p.absence.contains s.time) then
+            allocate m s.logs p.rule (absenceSet m s.time (!(p.absence.contains s.time)) s.live)
+           else absenceSet m s.time (!(p.absence.contains s.time)) s.live)
+         else
+          (if !(p.absence.contains s.time) then
+            allocate m s.logs p.rule (absenceSet m s.time (!(p.absence.contains s.time)) s.live)
+           else absenceSet m s.time (!(p.absence.contains s.time)) s.live))) := rfl
 
 theorem Alloc.stepBody_time (m : Model) (p : Params) (s : St) : (stepBody m p s).time = s.time + 1 := rfl
 
@@ -1371,7 +1390,8 @@ theorem stepBody_C03 {m : Model} (p : Params) {s : St}
     AllocInv m (stepBody m p s).live ∧ HoldWorking (stepBody m p s).live ∧
     ResInv m s.time (workingAt p s.time) (stepBody m p s).live := by
   rw [Alloc.stepBody_live]
-  have := Alloc.step_core s.logs p.rule s.time (!(p.absence.contains s.time)) h hw
+  have := Alloc.step_core_guard s.logs p.rule s.time (!(p.absence.contains s.time))
+    (!(p.absence.contains s.time) || p.autoFlag) (by intro e; rw [e]; rfl) h hw
   simp only at this
   obtain ⟨a, b, c⟩ := this
   exact ⟨perform_AllocInv (compCheck_AllocInv a), perform_HoldWorking (compCheck_HoldWorking b),
@@ -1516,6 +1536,8 @@ theorem stepBody_OutClean {m : Model} (p : Params) {s : St} (hwf : FacsInRange m
   have hf := Alloc.chkWorking_frame m (if (!(p.absence.contains s.time)) = true then
       allocate m s.logs p.rule (absenceSet m s.time (!(p.absence.contains s.time)) s.live)
     else absenceSet m s.time (!(p.absence.contains s.time)) s.live)
-  exact c2.frame hf.1 hf.2.1 hf.2.2.1 hf.2.2.2
+  cases (!(p.absence.contains s.time) || p.autoFlag)
+  · exact c2.frame rfl rfl rfl rfl
+  · exact c2.frame hf.1 hf.2.1 hf.2.2.1 hf.2.2.2
 
 end PDesy
